@@ -367,6 +367,9 @@ def run(ctx):
               'int fields: values above INT_MAX are rejected before the narrowing cast' if not bad else
               '%s in `%s`' % (bad[0]['kind'], bad[0]['expr']), c20_fn.file, bad[0]['line'] if bad else c20_fn.line,
               config=config)
+        # the decoder itself: exact value or rejection, no wrap, no narrowing (the C20 interpretation, reported here
+        # as well: every numeric field of the header goes through it)
+        c20.decoder(ck, prog, config, ca='C13-d', cb='C13-d', cc='C13-d', cd='C13-d')
         # the parsers reject sizes that do not fit what is left of the header, without wrap-around (C03-a rule)
         from . import c03
         c03.cursor_clauses(ck, prog, config, ca='C13-d', cb='C13-d')
